@@ -180,11 +180,13 @@ var UniPlain = &Universe{Name: "plain", Tmpls: tmpls(
 	"plain/l1/cfg/mode", "plain/l1/cfg/pres", "plain/l1/extattr", "plain/l1/sub/v",
 	"plain/l2a/v", "plain/l2a/w", "plain/l3a/v", "plain/ifc/v", "plain/ifc-ext/v",
 	"plain/l1/descr", "plain/l1/mtu", "plain/l2a/v", // weight
+	"plain/dc/dflt", "plain/dc/other", "plain/dc/in/z",
 )}
 
-// UniPlainNA adds the lists whose keys are declared in non-alphabetical order.
-var UniPlainNA = &Universe{Name: "plain+nonalpha", Tmpls: append(append([]Tmpl{}, UniPlain.Tmpls...), tmpls(
-	"plain/l2z/v", "plain/l3/v", "plain/l2z/v", "plain/l3/v")...)}
+// UniPlainNA adds the lists whose keys are declared in non-alphabetical order. (Templates are only ever
+// appended, stored cases address them by index.)
+var UniPlainNA = &Universe{Name: "plain+nonalpha", Tmpls: append(append(append([]Tmpl{}, UniPlain.Tmpls[:len(UniPlain.Tmpls)-3]...), tmpls(
+	"plain/l2z/v", "plain/l3/v", "plain/l2z/v", "plain/l3/v")...), UniPlain.Tmpls[len(UniPlain.Tmpls)-3:]...)}
 
 // UniChoice: the choice subtree plus two plain leaves.
 var UniChoice = &Universe{Name: "choice", Tmpls: tmpls(
@@ -302,10 +304,68 @@ func GenStep(t *rapid.T, o HistGenOpts) Step {
 
 func GenHistCase(t *rapid.T, o HistGenOpts) *HistCase {
 	c := &HistCase{Universe: o.Universe.Name, Palette: GenPalette(t)}
-	if o.WithInit && rapid.IntRange(0, 2).Draw(t, "hasinit") != 0 {
+	scenario := o.WithInit && o.MaxSteps >= 2 && rapid.IntRange(0, 6).Draw(t, "lone-unmanaged-scenario") == 0
+	if scenario {
+		// a lone unmanaged leaf outside every list (often one that has a schema default) is all the running
+		// configuration holds in its subtree; an owner then adds siblings near it and takes them away again
+		var lone, dflt []int
+		for i, tm := range o.Universe.Tmpls {
+			inList := false
+			n := Root
+			for _, nm := range tm.names {
+				n = n.Child(nm)
+				if n.Kind == KList {
+					inList = true
+				}
+			}
+			if !inList && n.Choice == "" {
+				lone = append(lone, i)
+				if n.Default != "" {
+					dflt = append(dflt, i)
+				}
+			}
+		}
+		if len(lone) > 0 {
+			pick := lone
+			if len(dflt) > 0 && rapid.Bool().Draw(t, "lone-defaulted") {
+				pick = dflt
+			}
+			li := rapid.SampledFrom(pick).Draw(t, "lone-t")
+			c.Initial = []LeafSel{{T: li, V: rapid.IntRange(0, 2).Draw(t, "lone-v")}}
+			owner := rapid.IntRange(0, NumOwners-1).Draw(t, "lone-owner")
+			var sib []LeafSel
+			for i, n := 0, rapid.IntRange(1, 3).Draw(t, "lone-nsib"); i < n; i++ {
+				si := rapid.SampledFrom(lone).Draw(t, "lone-sib")
+				if si != li || rapid.IntRange(0, 3).Draw(t, "lone-same") == 0 {
+					sib = append(sib, LeafSel{T: si, V: rapid.IntRange(0, 2).Draw(t, "lone-sv")})
+				}
+			}
+			if len(sib) == 0 {
+				sib = GenLeafSels(t, o.Universe, 1, 2, "lone-any")
+			}
+			form := "typed"
+			if len(o.Forms) > 0 {
+				form = o.Forms[0]
+			}
+			c.Steps = append(c.Steps, Step{Intents: []IntentOp{{Owner: owner, Kind: "set", PrioIx: rapid.IntRange(0, len(PrioPool)-1).Draw(t, "prio"), Leaves: sib, Form: form}}})
+			end := IntentOp{Owner: owner, Kind: "delete", Keep: true}
+			if rapid.IntRange(0, 2).Draw(t, "lone-shrink") == 0 {
+				end = IntentOp{Owner: owner, Kind: "set", Keep: true, Leaves: GenLeafSels(t, o.Universe, 1, 2, "lone-rest"), Form: form}
+			}
+			c.Steps = append(c.Steps, Step{Intents: []IntentOp{end}})
+		}
+	} else if o.WithInit && rapid.IntRange(0, 2).Draw(t, "hasinit") != 0 {
 		c.Initial = GenLeafSels(t, o.Universe, 1, 8, "init")
 	}
-	ns := rapid.IntRange(o.MinSteps, o.MaxSteps).Draw(t, "nsteps")
+	min := o.MinSteps - len(c.Steps)
+	if min < 0 {
+		min = 0
+	}
+	max := o.MaxSteps - len(c.Steps)
+	if max < min {
+		max = min
+	}
+	ns := rapid.IntRange(min, max).Draw(t, "nsteps")
 	for i := 0; i < ns; i++ {
 		c.Steps = append(c.Steps, GenStep(t, o))
 	}
